@@ -426,3 +426,9 @@ def run(prog: Program, res: Result) -> None:  # noqa: PLR0912, PLR0915
                 else:
                     res.fail("C15.R4", file=f.file, line=s.lineno, qualname=f.qualname, construct=f"{norm(s)} without an emptiness guard", message=f"`{norm(s)}` raises IndexError when `{seq}` is empty (e.g. extracting messages from an empty template)", what=what)
     res.floor("C15.R4", "constant-index reads in extraction code", n_idx, 1)
+
+    # ------------------------------------------------------------------ R7 the visitor's view of the tree is complete
+    res.rule("C15.R7", "extraction walks node.children(): every Node/Expression class hands each child to the traversals under no condition other than that child's own presence (shared with C11.R9) - a translate tag or translation filter inside a child that children() drops is looked up at run time but never extracted")
+    from checks.shared import check_unconditional_contributions
+
+    check_unconditional_contributions(prog, res, "C15.R7")
